@@ -507,6 +507,7 @@ func C07() int {
 
 	// ---- (f) lines around and beyond the reader's limit
 	c07LongLines(s, c)
+	c07DeepLongLines(s, c)
 
 	// ---- (g) the hostile line as the very first / very last line of the input
 	c07Edges(s, c, cases)
@@ -672,6 +673,106 @@ func c07LongLines(s *sut.SUT, c *ev.Check) {
 			viol("lines-before-lost", fmt.Sprintf("%d lines precede the long line but %d came out", nBefore, k))
 		}
 		c.Count("over_limit_lines_rejected_with_error", 1)
+	})
+}
+
+// c07DeepLongLines: lines far beyond the reader's 64 KiB limit that are also deeply nested (millions
+// of containers, closed or not). Whatever the limit is, the run either handles such a line or stops
+// with a message; it never dies with a runtime crash (stack exhaustion is fatal in Go, recover()
+// does not see it), and the lines before it are there.
+func c07DeepLongLines(s *sut.SUT, c *ev.Check) {
+	head := `{"t":{"$date":"2025-01-01T00:00:00.000Z"},"s":"I","c":"COMMAND","id":1,"ctx":"vqDEEPm","msg":"Slow query","attr":{"ns":"db1.c","command":{"find":"c","filter":{"a":`
+	tail := `},"$db":"db1"}}}`
+	type job struct {
+		name string
+		line func() []byte
+		ch   string
+	}
+	nest := func(open, cls string, n int, closed bool) func() []byte {
+		return func() []byte {
+			var b bytes.Buffer
+			b.Grow(len(head) + len(tail) + n*(len(open)+len(cls)) + 8)
+			b.WriteString(head)
+			for i := 0; i < n; i++ {
+				b.WriteString(open)
+			}
+			b.WriteString("1")
+			if closed {
+				for i := 0; i < n; i++ {
+					b.WriteString(cls)
+				}
+				b.WriteString(tail)
+			}
+			return b.Bytes()
+		}
+	}
+	raw := func(ch byte, n int) func() []byte { return func() []byte { return bytes.Repeat([]byte{ch}, n) } }
+	var jobs []job
+	for _, ch := range []string{"file", "stdin"} {
+		jobs = append(jobs,
+			job{"arrays-closed-40k", nest("[", "]", 40000, true), ch},
+			job{"objects-closed-30k", nest(`{"d":`, "}", 30000, true), ch},
+			job{"arrays-closed-5M", nest("[", "]", 5000000, true), ch},
+			job{"arrays-open-6M", raw('[', 6000000), ch},
+			job{"objects-open-2M", nest(`{"d":`, "}", 2000000, false), ch})
+	}
+	if !thorough(c) {
+		jobs = jobs[:7] // quick tier: all five through a file, two through stdin
+	}
+	parallelDoN(3, len(jobs), func(ji int) {
+		jb := jobs[ji]
+		dir := s.TempDir("c07deep")
+		defer os.RemoveAll(dir)
+		before := [][]byte{c07Sentinel(0), c07Sentinel(1), c07Sentinel(2)}
+		after := [][]byte{c07Sentinel(3), c07Sentinel(4)}
+		deep := jb.line()
+		data := append(bytes.Join(append(append(append([][]byte{}, before...), deep), after...), []byte("\n")), '\n')
+		run := sut.Run{Dir: dir, Args: []string{"redact"}, Timeout: 5 * time.Minute}
+		if jb.ch == "file" {
+			in := filepath.Join(dir, "in.log")
+			os.WriteFile(in, data, 0o644)
+			run.Args = append(run.Args, in)
+		} else {
+			run.Stdin = data
+		}
+		r := s.CLI(run)
+		c.Count("deep_long_line_runs", 1)
+		c.Eval(fmt.Sprintf("deep-long|%s|%s", jb.name, jb.ch))
+		desc := map[string]any{"kind": "deep-long-line", "shape": jb.name, "line_bytes": len(deep), "input_channel": jb.ch}
+		viol := func(kind, what string) {
+			c.Violation("deep-long-line-"+kind, fmt.Sprintf("line %s of %d bytes (input: %s): %s (exit %d, stderr %s)", jb.name, len(deep), jb.ch, what, r.Exit, short(bytes.TrimSpace(r.Stderr), 200)), desc)
+		}
+		if r.TimedOut {
+			c.Inconclusive("watchdog")
+			return
+		}
+		if sut.Crashed(r.Stderr) || r.Exit == 2 || r.Exit < 0 || r.Exit > 128 {
+			viol("crash", "the process died instead of handling the line or stopping with a message")
+			return
+		}
+		k := 0
+		for _, ol := range splitLines(r.Stdout) {
+			if bytes.Contains(ol, []byte(fmt.Sprintf(`"ctx":"vqS%dm"`, k))) {
+				k++
+			} else if !bytes.Contains(ol, []byte("vqDEEPm")) {
+				viol("unexpected-output", "unexpected output line: "+short(ol, 120))
+				return
+			}
+		}
+		if r.Exit == 0 {
+			if k != 5 {
+				viol("silent-loss", fmt.Sprintf("exit 0 but only %d of the 5 ordinary lines came out", k))
+			}
+			c.Count("deep_long_lines_processed_normally", 1)
+			return
+		}
+		if len(bytes.TrimSpace(r.Stderr)) == 0 {
+			viol("stop-without-message", "non-zero exit without an error message")
+		}
+		if k != 3 {
+			viol("lines-before-lost", fmt.Sprintf("3 lines precede the deep line but %d came out", k))
+		}
+		c.Count("deep_long_lines_rejected_with_error", 1)
 	})
 }
 
